@@ -173,7 +173,8 @@ class CallsMixin:
               z3.ForAll([a], z3.Implies(z3.And(0 <= a, a < rl),
                                         z3.And(0 <= src(a), src(a) < m.n, T.Sel(cf, src(a)), dst(src(a)) == a))),
               z3.ForAll([a], z3.Implies(z3.And(0 <= a, a < m.n, T.Sel(cf, a)),
-                                        z3.And(0 <= dst(a), dst(a) < rl, src(dst(a)) == a))),
+                                        z3.And(0 <= dst(a), dst(a) < rl, src(dst(a)) == a)),
+                        patterns=self._kept_patterns(dst(a), T.Sel(ef, a), a)),
               z3.ForAll([a, b], z3.Implies(z3.And(0 <= a, a < b, b < rl), src(a) < src(b)))]
         for x in ax:
             st.assume(x) if not st.guards else (_ for _ in ()).throw(Unsupported('filtered comprehension under guard'))
@@ -181,6 +182,19 @@ class CallsMixin:
         res = self.mk_list(st, elt.ty, rl, z3.Lambda([r], T.Sel(ef, src(r))), kind=kind)
         cache[ck] = (src, dst, rl, None, ax, m.n)
         return res
+
+    @staticmethod
+    def _kept_patterns(dst_a, elt_a, a):
+        """Triggers for 'a kept source position has a result position': the position term itself, and the element
+        at the source position (so that a goal that only mentions the source element finds its result index)."""
+        pats = [dst_a]
+        try:
+            if z3.is_app(elt_a) and not z3.is_const(elt_a) and any(z3.eq(v, a) for v in z3.z3util.get_vars(elt_a)) \
+                    and elt_a.decl().kind() in (z3.Z3_OP_SELECT, z3.Z3_OP_UNINTERPRETED):
+                pats.append(elt_a)
+        except Exception:  # noqa
+            pass
+        return pats
 
     def quant_over(self, node, st, is_all):
         """all(...) / any(...) over a generator expression."""
@@ -375,6 +389,19 @@ class CallsMixin:
             return V(v.ty, z3.If(v.t >= 0, v.t, -v.t))
         if name in ('min', 'max'):
             if len(vals) == 1:
+                v = vals[0]
+                if v.ty.kind in ('List', 'Np1') and v.ty.args[0].kind in ('Int', 'Real'):
+                    # extremum of a non-empty sequence: a fresh value that bounds every item and is one of them
+                    ln, arr = self.seq_parts(v, st)
+                    self.total(st, ln > 0, f'{name}() of a non-empty sequence', node)
+                    et = v.ty.args[0]
+                    m = fresh(et, name)
+                    i = z3.Int(fresh_name('mi'))
+                    w = z3.Int(fresh_name('mw'))
+                    cmp_ = (lambda a, b: a >= b) if name == 'max' else (lambda a, b: a <= b)
+                    st.pc.append(z3.ForAll([i], z3.Implies(z3.And(0 <= i, i < ln), cmp_(m, T.Sel(arr, i)))))
+                    st.pc.append(z3.And(0 <= w, w < ln, T.Sel(arr, w) == m))
+                    return V(et, m)
                 raise Unsupported(f'{name} over iterable')
             r = vals[0]
             for v in vals[1:]:
